@@ -278,20 +278,27 @@ func (c *Ctx) writeEvidence(verifDir string, nOK, nKnown, nBad int) {
 		floors[r] = map[string]int{"found": f[0], "floor": f[1]}
 	}
 	cov := map[string]any{
-		"explanation":                    c.Explain,
-		"obligations":                    len(c.Obs),
-		"discharged":                     nOK,
-		"known_findings":                 nKnown,
-		"violated":                       nBad,
-		"rules":                          c.Rules,
-		"analysed":                       c.Stats,
-		"floors":                         floors,
-		"controls":                       c.Controls,
-		"build_configs":                  c.Configs,
-		"samples":                        samples,
-		"trusted_base":                   c.Trusted,
-		"undecided_clauses":              c.Undec,
-		"notes":                          c.Notes,
+		"explanation":       c.Explain,
+		"obligations":       len(c.Obs),
+		"discharged":        nOK,
+		"known_findings":    nKnown,
+		"violated":          nBad,
+		"rules":             c.Rules,
+		"analysed":          c.Stats,
+		"floors":            floors,
+		"controls":          c.Controls,
+		"build_configs":     c.Configs,
+		"samples":           samples,
+		"trusted_base":      c.Trusted,
+		"undecided_clauses": c.Undec,
+		"notes":             c.Notes,
+		"obligation_keys": func() []string {
+			out := []string{}
+			for _, o := range c.Obs {
+				out = append(out, o.Status+" "+o.Key)
+			}
+			return out
+		}(),
 		"helpers_interpreted_inline":     InlinedHelpers(),
 		"pure_functions_splitting_paths": PureSplit(),
 		"exhaustive":                     true,
